@@ -286,13 +286,24 @@ func TestC12(t *testing.T) {
 		nSent := rapid.IntRange(1, 3).Draw(rt, "sent-by values")
 		sentBys := []string{clientIP + ":5060", clientIP + ":6010", s.ip(11) + ":5060"}[:nSent]
 		var conns []*labTCPConn
+		var connIP []string // the address each connection comes from
 		connSentBy := map[int]map[string]bool{}
+		// (the address of a UDP backend of the listen entry: a machine that serves as
+		// a backend and whose own user agent also connects to the proxy)
+		_, bhp, _ := strings.Cut(l.Backends[0], "://")
+		backendIP, _ := splitHostPort(bhp)
 		open := func() {
-			c, err := s.in.hub.dialTCP(fmt.Sprintf("c%d", len(conns)), clientIP, l.Addr, l.TCPPort)
+			src := clientIP
+			if len(conns) >= 2 && rapid.IntRange(0, 3).Draw(rt, "the client is on a backend's address") == 0 {
+				src = backendIP
+				V.Class("a client connecting from the address of a backend")
+			}
+			c, err := s.in.hub.dialTCP(fmt.Sprintf("c%d", len(conns)), src, l.Addr, l.TCPPort)
 			if err != nil {
 				V.HarnessError(rt, "dial: %v", err)
 			}
 			conns = append(conns, c)
+			connIP = append(connIP, src)
 		}
 		open()
 		open()
@@ -356,6 +367,9 @@ func TestC12(t *testing.T) {
 					tx.SentBy = conns[o].local
 					V.Class("sent-by names the source port of another live connection")
 				}
+				if connIP[ci] != clientIP && rapid.Bool().Draw(rt, "it announces the backend's own address and port") {
+					tx.SentBy = bhp
+				}
 				if connSentBy[ci] == nil {
 					connSentBy[ci] = map[string]bool{}
 				}
@@ -386,7 +400,7 @@ func TestC12(t *testing.T) {
 				hist = append(hist, fmt.Sprintf("c%d sends %s %s (sent-by %s%s)", ci, tx.Method, tx.ID, tx.SentBy, rport))
 				V.Journal(t.Name()+"/histories", hist)
 				sb, _ := splitHostPort(tx.SentBy)
-				s.model.learnRequest(s.model.transport(entry, "tcp"), clientIP, &AMsg{IsReq: true, Hdrs: []AHdr{{Kind: hVia, Vias: []AVia{{Host: sb}}}}})
+				s.model.learnRequest(s.model.transport(entry, "tcp"), connIP[ci], &AMsg{IsReq: true, Hdrs: []AHdr{{Kind: hVia, Vias: []AVia{{Host: sb}}}}})
 				s.in.expect(wire)
 				if err := c.send(wire); err != nil {
 					V.HarnessError(rt, "send: %v", err)
